@@ -2,7 +2,8 @@
      A. the arena around a buffer,
      B. every in-memory adapter agrees with the documented std operation on every state,
      C. the default exact loops over ANY OS oracle agree with std's provided read_exact / write_all,
-     D. the two oracle instances never interrupt: their loops terminate within the fuel used,
+     D. the three oracle instances (file, byte queue, message queue) never interrupt: their loops
+        terminate within the fuel used,
      E. one step, histories (induction over the operation list), the checker on the model. *)
 From VM Require Import Prelude.MachInt Prelude.Outcome Prelude.Tok Prelude.C1314List Impl.Io Impl.Std Spec.C13 Suite.C13.
 
@@ -624,13 +625,15 @@ Qed.
 
 (* std's loops terminate on oracles that never fail: each round makes progress or stops *)
 Lemma std_read_exact_terminates {F} (os_read : F -> N -> F * os_rres) :
-  (forall f len, exists f' bs, os_read f len = (f', OsData bs)) ->
+  (forall f len f', os_read f len <> (f', OsRErr EInterrupted)) ->
   forall fuel f want acc, (N.to_nat want < fuel)%nat ->
   exists of out r, std_fd_read_exact os_read fuel f want acc = Val (of, out, r).
 Proof.
   intros Hos. induction fuel as [|k IH]; intros f want acc Hf; [lia|]. cbn [std_fd_read_exact].
   destruct (N.eqb_spec want 0); [eauto|].
-  destruct (Hos f want) as (f' & bs & ->). destruct (N.eqb_spec (nlen bs) 0); [eauto|]. apply IH. lia.
+  destruct (os_read f want) as [f' [bs|e]] eqn:E.
+  - destruct (N.eqb_spec (nlen bs) 0); [eauto|]. apply IH. lia.
+  - destruct e; try (eexists _, _, _; reflexivity). exfalso. exact (Hos _ _ _ E).
 Qed.
 Lemma std_write_all_terminates {F} (os_write : F -> list N -> F * os_wres) :
   (forall f d, exists f' n, os_write f d = (f', OsCount n)) ->
@@ -642,22 +645,35 @@ Proof.
   destruct (Hos f d) as (f' & cnt & ->). destruct (N.eqb_spec cnt 0); [eauto|]. apply IH. rewrite nlen_ndrop. lia.
 Qed.
 
-Definition is_fd (k : skind) : bool := match k with KFile | KQueue => true | _ => false end.
-Lemma os_read_data k f len : exists f' bs, os_read_of k f len = (f', OsData bs) /\ nlen bs <= len.
+Definition is_fd (k : skind) : bool := match k with KFile | KQueue | KMsgQ => true | _ => false end.
+(* every oracle instance answers with at most len bytes, or (message queue only) with EAGAIN; none
+   ever answers EINTR *)
+Lemma os_read_cases k f len : exists f' r, os_read_of k f len = (f', r) /\
+  (r = OsRErr EOther \/ exists bs, r = OsData bs /\ nlen bs <= len).
 Proof.
-  destruct k; cbn [os_read_of]; unfold file_read, queue_read; eexists _, _; (split; [reflexivity|]);
-    rewrite nlen_ntake; lia.
+  destruct k; cbn [os_read_of]; unfold file_read, queue_read, msgq_read;
+    try (eexists _, _; split; [reflexivity|]; right; eexists; split; [reflexivity|]; rewrite nlen_ntake; lia).
+  destruct (N.eqb_spec len 0) as [Hz|Hz].
+  - eexists _, _. split; [reflexivity|]. right. eexists. split; [reflexivity|]. cbn. lia.
+  - destruct (s_data f) as [|x t].
+    + eexists _, _. split; [reflexivity|]. left. reflexivity.
+    + destruct (msg_split (x :: t)) as [m r]. eexists _, _. split; [reflexivity|]. right.
+      eexists. split; [reflexivity|]. rewrite nlen_ntake. lia.
+Qed.
+Lemma os_read_no_eintr k f len f' : os_read_of k f len <> (f', OsRErr EInterrupted).
+Proof.
+  intros E. destruct (os_read_cases k f len) as (f1 & r & E1 & [->|(bs & -> & _)]); rewrite E1 in E; discriminate.
 Qed.
 Lemma os_write_count k f d : exists f' n, os_write_of k f d = (f', OsCount n) /\ n <= nlen d.
 Proof.
-  destruct k; cbn [os_write_of]; unfold file_write, queue_write;
+  destruct k; cbn [os_write_of]; unfold file_write, queue_write, msgq_write;
     try (destruct (nlen d =? 0); eexists _, _; (split; [reflexivity|]); lia);
     eexists _, _; (split; [reflexivity|]); lia.
 Qed.
 Lemma os_read_bounded k : forall f len f' bs, os_read_of k f len = (f', OsData bs) -> nlen bs <= len.
 Proof.
-  intros f len f' bs H. destruct (os_read_data k f len) as (f1 & b1 & E & Hl). rewrite E in H.
-  inversion H; subst. exact Hl.
+  intros f len f' bs H. destruct (os_read_cases k f len) as (f1 & r & E & [->|(b1 & -> & Hl)]); rewrite E in H;
+    inversion H; subst. exact Hl.
 Qed.
 Lemma os_write_bounded k : forall f d f' n, os_write_of k f d = (f', OsCount n) -> n <= nlen d.
 Proof.
@@ -669,22 +685,25 @@ Lemma agree_fd_read md k st pre : is_fd k = true ->
   Agree (ORead pre) (vm_step md k st (ORead pre)) (std_step k st (ORead pre)).
 Proof.
   intros Hk. assert (E : vm_step md k st (ORead pre) = lift_n (read_volatile_raw_fd (os_read_of k) st (arena pre) (win pre))
-                     /\ std_step k st (ORead pre) = let '(st', bs, r) := std_fd_read (os_read_of k) st (nlen pre) in Val (Some st', bs, rc_n r))
+                     /\ std_step k st (ORead pre) = let '(st', bs, r) := std_fd_read (os_read_of k) st (nlen pre) in Val (keep_if (rc_n r) st', bs, rc_n r))
     by (destruct k; try discriminate; split; reflexivity).
   destruct E as [-> ->]. unfold read_volatile_raw_fd, std_fd_read, lift_n. cbn [win vs_len vs_off].
-  destruct (os_read_data k st (nlen pre)) as (f' & bs & -> & Hl). cbn [omap fst snd rc_n].
-  rewrite arena_write by exact Hl.
-  eexists _, _, _, _, _. split; [reflexivity|]. split; [reflexivity|]. agree_tail.
-  split; [apply nlen_write_prefix; exact Hl|].
-  split; [|split; [discriminate|discriminate]].
-  intros _. split; [reflexivity|]. split; [exact Hl|reflexivity].
+  destruct (os_read_cases k st (nlen pre)) as (f' & r & -> & [->|(bs & -> & Hl)]); cbn [omap fst snd rc_n].
+  - (* the OS call failed (EAGAIN): nothing stored, the error is passed on *)
+    eexists _, _, _, _, _. split; [reflexivity|]. split; [reflexivity|]. agree_tail.
+    split; [reflexivity|]. split; [discriminate|]. split; [reflexivity|discriminate].
+  - rewrite arena_write by exact Hl.
+    eexists _, _, _, _, _. split; [reflexivity|]. split; [reflexivity|]. agree_tail.
+    split; [apply nlen_write_prefix; exact Hl|].
+    split; [|split; [discriminate|discriminate]].
+    intros _. split; [reflexivity|]. split; [exact Hl|reflexivity].
 Qed.
 
 Lemma agree_fd_write md k st d : is_fd k = true ->
   Agree (OWrite d) (vm_step md k st (OWrite d)) (std_step k st (OWrite d)).
 Proof.
   intros Hk. assert (E : vm_step md k st (OWrite d) = lift_n (write_volatile_raw_fd (os_write_of k) st (arena d) (win d))
-                     /\ std_step k st (OWrite d) = let '(st', r) := std_fd_write (os_write_of k) st d in Val (Some st', [], rc_n r))
+                     /\ std_step k st (OWrite d) = let '(st', r) := std_fd_write (os_write_of k) st d in Val (keep_if (rc_n r) st', [], rc_n r))
     by (destruct k; try discriminate; split; reflexivity).
   destruct E as [-> ->]. unfold write_volatile_raw_fd, std_fd_write, lift_n. cbn [win vs_len vs_off].
   rewrite arena_read_all.
@@ -707,7 +726,7 @@ Proof.
   destruct E as [-> ->].
   destruct (std_read_exact_terminates (os_read_of k)) with (fuel := (N.to_nat (nlen pre) + 2)%nat) (f := st)
     (want := nlen pre) (acc := @nil N) as (of & out & r & Hstd).
-  { intros f len. destruct (os_read_data k f len) as (f' & bs & E & _). eauto. }
+  { intros f len f'. apply os_read_no_eintr. }
   { lia. }
   rewrite Hstd. cbn [bind].
   unfold read_exact_volatile, exact_volatile. rewrite (win_offset0 pre Hb).
@@ -876,18 +895,20 @@ Proof.
   destruct o as [pre|pre|d|d|p].
   - destruct k; cbn [op_allowed] in Hal; try discriminate.
     + apply agree_slice_read. + apply agree_cursor_read. exact Hi.
-    + apply agree_fd_read. reflexivity. + apply agree_fd_read. reflexivity.
+    + apply agree_fd_read. reflexivity. + apply agree_fd_read. reflexivity. + apply agree_fd_read. reflexivity.
   - destruct k; cbn [op_allowed] in Hal; try discriminate.
     + apply agree_slice_read_exact. + apply agree_cursor_read_exact. exact Hi.
     + apply agree_fd_read_exact; [reflexivity|exact Hb]. + apply agree_fd_read_exact; [reflexivity|exact Hb].
+    + apply agree_fd_read_exact; [reflexivity|exact Hb].
   - destruct k; cbn [op_allowed] in Hal; try discriminate.
     + apply agree_mslice_write. + apply agree_vec_write. cbn [st_inv op_buf] in Hi. lia.
     + apply agree_cursor_write. exact Hi.
-    + apply agree_fd_write. reflexivity. + apply agree_fd_write. reflexivity.
+    + apply agree_fd_write. reflexivity. + apply agree_fd_write. reflexivity. + apply agree_fd_write. reflexivity.
   - destruct k; cbn [op_allowed] in Hal; try discriminate.
     + apply agree_mslice_write_all. + apply agree_vec_write_all; [cbn [st_inv op_buf] in Hi; lia|exact Hb].
     + apply agree_cursor_write_all; [exact Hi|exact Hb].
     + apply agree_fd_write_all; [reflexivity|exact Hb]. + apply agree_fd_write_all; [reflexivity|exact Hb].
+    + apply agree_fd_write_all; [reflexivity|exact Hb].
   - unfold vm_step, std_step. cbn [op_buf].
     eexists _, [], _, _, _. split; [reflexivity|]. split; [reflexivity|]. cbn [op_buf is_read].
     split; [reflexivity|]. split; [|split; [discriminate|reflexivity]].
@@ -1098,7 +1119,7 @@ Lemma exact_ok_iff_lemma : forall md k content st o budget st' m rc,
   | KSliceR | KCurR | KSliceW | KCurW =>
       (nlen (op_buf o) <= room_of k st -> rc = (1, 0))
       /\ (room_of k st < nlen (op_buf o) -> rc = if is_read o then (2, 0) else (3, 0))
-  | KFile | KQueue => exists ost bs, std_step k st o = Val (ost, bs, rc)
+  | KFile | KQueue | KMsgQ => exists ost bs, std_step k st o = Val (ost, bs, rc)
   end.
 Proof.
   intros md k content st o budget st' m rc Ho Hi Hx H.
@@ -1151,4 +1172,144 @@ Proof.
     try (unfold buf_ok in Hbuf; lia).
   { exact Hstd. }
   exists f'. split; [|exact Hrest]. exact He.
+Qed.
+
+(* ------------------------------------------------------------------ G. the message queue in closed form
+   An exact read from a message queue is served in PIECES: every round of the default loop dequeues one
+   message, takes what still fits and discards the excess.  [msgq_exact ms want acc] says what comes out
+   for a queue given as a list of messages: it succeeds when the messages in front are non-empty until the
+   request is filled, fails with UnexpectedEof at an empty message and with the descriptor's EAGAIN when
+   the queue runs dry. *)
+Fixpoint enc_msgs (ms : list (list N)) : list N :=
+  match ms with [] => [] | m :: t => m ++ MSG_END :: enc_msgs t end.
+Definition payload_ok (m : list N) : Prop := Forall (fun x => x < MSG_END) m.
+
+Fixpoint msgq_exact (ms : list (list N)) (want : N) (acc : list N) {struct ms}
+  : option (list (list N)) * list N * res unit :=
+  if want =? 0 then (Some ms, acc, Ok tt) else
+  match ms with
+  | [] => (None, [], Err (VIo EOther))
+  | m :: t => if nlen m =? 0 then (None, [], Err (VIo EUnexpectedEof))
+              else msgq_exact t (want - nlen (ntake want m)) (acc ++ ntake want m)
+  end.
+
+Lemma msg_split_enc m rest : payload_ok m -> msg_split (m ++ MSG_END :: rest) = (m, rest).
+Proof.
+  induction 1 as [|x m Hx _ IH]; cbn [app msg_split].
+  - rewrite N.eqb_refl. reflexivity.
+  - destruct (N.eqb_spec x MSG_END) as [E|_]; [lia|]. rewrite IH. reflexivity.
+Qed.
+Lemma msgq_read_enc m t p o len : payload_ok m -> len <> 0 ->
+  msgq_read {| s_data := enc_msgs (m :: t); s_pos := p; s_out := o |} len =
+  ({| s_data := enc_msgs t; s_pos := p; s_out := o |}, OsData (ntake len m)).
+Proof.
+  intros Hm Hl. unfold msgq_read. destruct (N.eqb_spec len 0); [contradiction|]. cbn [s_data s_pos s_out enc_msgs].
+  destruct (m ++ MSG_END :: enc_msgs t) as [|x r] eqn:E.
+  - exfalso. destruct m; discriminate.
+  - rewrite <- E, (msg_split_enc m _ Hm). reflexivity.
+Qed.
+
+Definition msgq_state (p : N) (o : list N) (ms : list (list N)) : sstate :=
+  {| s_data := enc_msgs ms; s_pos := p; s_out := o |}.
+
+Lemma std_msgq_read_exact p o : forall ms, Forall payload_ok ms -> forall fuel want acc,
+  (N.to_nat want < fuel)%nat ->
+  std_fd_read_exact msgq_read fuel (msgq_state p o ms) want acc =
+  Val (let '(oms, out, r) := msgq_exact ms want acc in (option_map (msgq_state p o) oms, out, r)).
+Proof.
+  induction 1 as [|m t Hm _ IH]; intros fuel want acc Hf; (destruct fuel as [|k]; [lia|]);
+    cbn [std_fd_read_exact msgq_exact]; destruct (N.eqb_spec want 0) as [Hz|Hz]; try reflexivity.
+  - unfold msgq_read. destruct (N.eqb_spec want 0); [contradiction|]. reflexivity.
+  - unfold msgq_state at 1. rewrite (msgq_read_enc m t p o want Hm Hz).
+    assert (Hn : nlen (ntake want m) = N.min want (nlen m)) by apply nlen_ntake.
+    destruct (N.eqb_spec (nlen m) 0) as [Hm0|Hm0].
+    + destruct (N.eqb_spec (nlen (ntake want m)) 0); [reflexivity|lia].
+    + destruct (N.eqb_spec (nlen (ntake want m)) 0); [lia|].
+      apply (IH k (want - nlen (ntake want m)) (acc ++ ntake want m)). lia.
+Qed.
+
+Lemma msgq_exact_some : forall ms want acc ms' out r, msgq_exact ms want acc = (Some ms', out, r) ->
+  r = Ok tt /\ nlen out = nlen acc + want.
+Proof.
+  induction ms as [|m t IH]; intros want acc ms' out r H; cbn [msgq_exact] in H;
+    destruct (N.eqb_spec want 0) as [Hz|Hz]; try (inversion H; subst; split; [reflexivity|lia]); try discriminate.
+  destruct (nlen m =? 0); [discriminate|]. apply IH in H. destruct H as [-> H]. split; [reflexivity|].
+  rewrite H, nlen_app. pose proof (nlen_ntake want m). lia.
+Qed.
+
+Lemma msgq_read_exact_pieces_lemma : forall md ms b p, Forall payload_ok ms -> buf_ok b ->
+  exists st' b',
+    vm_step md KMsgQ (msgq_state p [] ms) (OReadExact b)
+      = Val ((st', arena b'), rc_unit (snd (msgq_exact ms (nlen b) [])))
+    /\ nlen b' = nlen b
+    /\ (forall ms', fst (fst (msgq_exact ms (nlen b) [])) = Some ms' ->
+          st' = msgq_state p [] ms' /\ b' = snd (fst (msgq_exact ms (nlen b) []))).
+Proof.
+  intros md ms b p Hms Hb.
+  destruct (adapter_eq_std_lemma md KMsgQ [] (msgq_state p [] ms) (OReadExact b) 0)
+    as (st' & b' & rc & ost & bs & Hv & Hs & Hl & Hok & _ & _).
+  { split; [reflexivity|]. split; [exact Hb|exact I]. }
+  { exact I. }
+  cbn [op_buf is_read] in *.
+  unfold std_step in Hs. rewrite (std_msgq_read_exact p [] ms Hms) in Hs by lia. cbn [bind] in Hs.
+  destruct (msgq_exact ms (nlen b) []) as [[oms out] r] eqn:E. inversion Hs; subst; clear Hs.
+  exists st', b'. cbn [fst snd]. split; [exact Hv|]. split; [exact Hl|].
+  intros ms' ->. destruct (msgq_exact_some _ _ _ _ _ _ E) as [-> Ho]. cbn [nlen length N.of_nat] in Ho.
+  destruct (Hok eq_refl) as (Hst & _ & Hb'). cbn [option_map] in Hst. inversion Hst; subst st'.
+  split; [reflexivity|]. rewrite (Hb' eq_refl). rewrite ndrop_all by lia. apply app_nil_r.
+Qed.
+
+(* ------------------------------------------------------------------ H. the VolatileSlice route
+   Kinds 11 / 12 of the suite drive the descriptor through VolatileSlice::{read_volatile_from,
+   read_exact_volatile_from, write_volatile_to, write_all_volatile_to}(0, fd, len) on the buffer's own
+   slice (transcribed in Impl/IoGuest.v: vs_upto / vs_exact).  With addr = 0 and count = the slice's
+   length that is the very computation of the direct ReadVolatile / WriteVolatile call, so the suite
+   judges both routes with the same model step. *)
+From VM Require Import Impl.IoGuest.
+
+Lemma vs_route_exact_lemma {S} zerr fuel (call : callT S) b s m : buf_ok b ->
+  vs_exact zerr fuel call (win b) 0 s m (nlen b) = exact_volatile zerr fuel call s m (win b).
+Proof.
+  intros Hb. unfold buf_ok in Hb. unfold vs_exact, vs_subslice, checked_add. cbn [win vs_len vs_addr vs_off].
+  rewrite N.add_0_l. destruct (N.ltb_spec (nlen b) W64); [|lia].
+  destruct (N.ltb_spec (nlen b) (nlen b)); [lia|]. reflexivity.
+Qed.
+Lemma vs_route_upto_lemma {S} fuel (call : callT S) b s m : buf_ok b ->
+  vs_upto fuel call (win b) 0 s m (nlen b) = retry_eintr fuel call s m (win b).
+Proof.
+  intros Hb. unfold buf_ok in Hb. unfold vs_upto, vs_offset, vs_subslice, checked_add, checked_sub.
+  cbn [win vs_len vs_addr vs_off].
+  destruct (N.ltb_spec (4096 + margin + 0) W64); [|lia]. destruct (N.leb_spec 0 (nlen b)); [|lia].
+  cbn [vs_len vs_addr vs_off]. rewrite N.sub_0_r, N.min_id, N.add_0_l.
+  destruct (N.ltb_spec (nlen b) W64); [|lia]. destruct (N.ltb_spec (nlen b) (nlen b)); [lia|].
+  rewrite !N.add_0_r. reflexivity.
+Qed.
+(* the descriptor oracles of the suite never answer EINTR: the retry loop is one call *)
+Lemma retry_fd_read k f st m v : is_fd k = true ->
+  retry_eintr (Datatypes.S f) (read_volatile_raw_fd (os_read_of k)) st m v = read_volatile_raw_fd (os_read_of k) st m v.
+Proof.
+  intros _. cbn [retry_eintr]. unfold read_volatile_raw_fd.
+  destruct (os_read_cases k st (vs_len v)) as (f' & r & -> & [->|(bs & -> & _)]); reflexivity.
+Qed.
+Lemma retry_fd_write k f st m v : is_fd k = true ->
+  retry_eintr (Datatypes.S f) (write_volatile_raw_fd (os_write_of k)) st m v = write_volatile_raw_fd (os_write_of k) st m v.
+Proof.
+  intros _. cbn [retry_eintr]. unfold write_volatile_raw_fd.
+  destruct (os_write_count k st (mem_read m (vs_off v) (vs_len v))) as (f' & n & -> & _). reflexivity.
+Qed.
+
+Lemma slice_route_same_lemma : forall k b st f, is_fd k = true -> buf_ok b ->
+  vs_read_volatile_from (Datatypes.S f) (read_volatile_raw_fd (os_read_of k)) (win b) 0 st (arena b) (nlen b)
+    = read_volatile_raw_fd (os_read_of k) st (arena b) (win b)
+  /\ vs_read_exact_volatile_from (fuel_of b) (read_volatile_raw_fd (os_read_of k)) (win b) 0 st (arena b) (nlen b)
+    = read_exact_volatile (fuel_of b) (read_volatile_raw_fd (os_read_of k)) st (arena b) (win b)
+  /\ vs_write_volatile_to (Datatypes.S f) (write_volatile_raw_fd (os_write_of k)) (win b) 0 st (arena b) (nlen b)
+    = write_volatile_raw_fd (os_write_of k) st (arena b) (win b)
+  /\ vs_write_all_volatile_to (fuel_of b) (write_volatile_raw_fd (os_write_of k)) (win b) 0 st (arena b) (nlen b)
+    = write_all_volatile (fuel_of b) (write_volatile_raw_fd (os_write_of k)) st (arena b) (win b).
+Proof.
+  intros k b st f Hk Hb. unfold vs_read_volatile_from, vs_write_volatile_to, vs_read_exact_volatile_from,
+    vs_write_all_volatile_to, read_exact_volatile, write_all_volatile.
+  rewrite !vs_route_upto_lemma, !vs_route_exact_lemma by exact Hb.
+  rewrite retry_fd_read, retry_fd_write by exact Hk. repeat split; reflexivity.
 Qed.
